@@ -64,8 +64,14 @@ def run_batch(exe, cases, timeout=600, env=None):
         inp = "".join(case_text(c) for c in pending)
         rc, out, err = vf.sh2([exe], inp=inp, timeout=timeout, env=e)
         began = None
+        abortlog = {}
         for ln in out.split("\n"):
-            if ln.startswith("@@BEGIN "):
+            if ln.startswith("@@ABORTLOG "):
+                try:
+                    abortlog[int(ln.split()[1])] = json.loads(ln.split(None, 2)[2])
+                except (ValueError, IndexError):
+                    pass
+            elif ln.startswith("@@BEGIN "):
                 began = int(ln.split()[1])
             elif ln.startswith("@@JSON "):
                 try:
@@ -87,6 +93,7 @@ def run_batch(exe, cases, timeout=600, env=None):
                     results[rest[0].get("id", 0)] = {"crash": rc, "stderr": err[-2000:], "id": rest[0].get("id", 0)}
             elif bad not in results:
                 results[bad] = {"crash": rc, "stderr": err[-2000:], "id": bad}
+                results[bad].update(abortlog.get(bad, {}))
         done_ids = set(results)
         newp = [c for c in pending if c.get("id", 0) not in done_ids]
         if len(newp) == len(pending):
